@@ -1,1 +1,14 @@
-pub fn placeholder() {}
+//! psc-bridge: maps concrete Rust types of the crate under test onto the model (`Ty`/`Val`),
+//! provides the type zoo and the type-erased input stacks. The real crate is only ever called on
+//! concrete Rust types; the model only ever sees `Ty`/`Val`.
+
+pub use parity_scale_codec as codec;
+pub use psc_model as model;
+
+pub mod derived;
+pub mod input;
+pub mod modeled;
+pub mod wrappers;
+pub mod zoo;
+
+pub use modeled::{CompactModel, Modeled};
